@@ -203,8 +203,8 @@ func init() {
 		ID:    "C07",
 		Level: "exploration",
 		Rule: fmt.Sprintf("pool = every combination of the features the comparison reads (exception x important x 6 $domain shapes (incl. wildcard-TLD only) x 5 content-type shapes x third-party x match-case x $dnstype x $ctag x $client x $denyallow, plus rules carrying 10..16 modifiers (all content types and more), = %d rules); "+
-			"exhaustive over the pool: irreflexivity, asymmetry and agreement with class order / specific-over-generic for all ordered pairs, add-one-modifier => strictly higher for every rule; "+
-			"transitivity of > and of incomparability on all triples of PRNG-drawn 90-rule subsets; selection maximality for candidate lists of 2..5 rules in all permutations through NewMatchingResult and GetDNSBasicRule, and through NetworkEngine.Match / Engine.MatchRequest with the candidates spread over the three lookup tables; "+
+			"exhaustive over the pool: irreflexivity, asymmetry and agreement with class order / specific-over-generic for all ordered pairs, the winner of both selection functions on every ordered pair, add-one-modifier => strictly higher for every rule; "+
+			"transitivity of > and of incomparability on all triples of PRNG-drawn 90-rule subsets; selection maximality for candidate lists of 2..5 rules in all permutations through NewMatchingResult and GetDNSBasicRule, and through NetworkEngine.Match / Engine.MatchRequest / DNSEngine.MatchRequest with the candidates spread over the three lookup tables; "+
 			"non-trivial = pool rule compared against the whole pool (its ordered pairs are counted in events.ordered_pairs), triple subset, or candidate list; distinct by the rule texts involved", len(c07Pool)),
 		Assumptions: []string{
 			"'exhaustive' is relative to the pool; document-level options are excluded from add-a-modifier because they replace the content-type set",
@@ -230,6 +230,22 @@ func init() {
 						if i != j {
 							c.Event("ordered_pairs", 1)
 						}
+						// Selection from the two-element candidate list, through
+						// both selection functions: the winner is never outranked.
+						for _, via := range []string{"GetDNSBasicRule", "NewMatchingResult"} {
+							pair := []*rules.NetworkRule{a.Rule, b.Rule}
+							var w *rules.NetworkRule
+							if via == "GetDNSBasicRule" {
+								w = rules.GetDNSBasicRule(pair)
+							} else {
+								w = rules.NewMatchingResult(pair, nil).BasicRule
+							}
+							if w == nil || (w == a.Rule && ba) || (w == b.Rule && ab) || (w != a.Rule && w != b.Rule) {
+								c.Violation("pair-winner-outranked:"+via, nil, c07Witness{A: a.Text, B: b.Text},
+									"%s([%q, %q]) selected %q (a>b: %v, b>a: %v)", via, a.Text, b.Text, c08Text(w), ab, ba)
+							}
+						}
+						c.Eval(2)
 						if ab && ba {
 							c.Violation("asymmetry", nil, c07Witness{A: a.Text, B: b.Text}, "%q and %q outrank each other", a.Text, b.Text)
 						}
@@ -370,8 +386,13 @@ func permute(n int, f func(p []int)) {
 func c07EngineSelection(c *core.Ctx) {
 	k := 2 + c.Rng.Intn(4)
 	var lines []string
+	// Half of the lists consist of rules the DNS engine loads as well.
+	dnsOnly := c.Rng.Intn(2) == 0
 	for len(lines) < k {
 		base := c07Pool[c.Rng.Intn(len(c07Pool))].Spec
+		if dnsOnly && (len(base.Domains) > 0 || base.ThirdParty != 0 || base.MatchCase || len(base.TypesP) > 0) {
+			continue
+		}
 		// Every candidate has to match the one request below.
 		restrictedOnly := len(base.Domains) > 0 && !c07Specific(base)
 		if restrictedOnly || len(base.TypesP) > 6 || len(base.TypesR) > 4 {
@@ -440,6 +461,26 @@ func c07EngineSelection(c *core.Ctx) {
 	w1, _ := ne.Match(req)
 	check("NetworkEngine.Match", w1)
 	check("Engine.MatchRequest", eng.MatchRequest(req).BasicRule)
+	// The DNS entry point has a selection function of its own.
+	de := urlfilter.NewDNSEngine(util.Storage(contents...))
+	dres, _ := de.MatchRequest(&urlfilter.DNSRequest{Hostname: "x.com", DNSType: 1, ClientIP: req.ClientIP, SortedClientTags: req.SortedClientTags})
+	if len(dres.NetworkRules) >= 2 {
+		c.Eval(1)
+		c.Event("dns_engine_selection_lists", 1)
+		w := dres.NetworkRule
+		if w == nil {
+			c.Violation("no-winner:DNSEngine.MatchRequest", nil, lines, "DNSEngine.MatchRequest selected nothing although %d rules match: %v", len(dres.NetworkRules), util.Texts(dres.NetworkRules))
+		} else {
+			for _, o := range dres.NetworkRules {
+				if o.IsHigherPriority(w) {
+					c.Violation("winner-outranked:DNSEngine.MatchRequest", nil, map[string]any{"lists": contents, "winner": w.RuleText, "outranked_by": o.RuleText},
+						"DNSEngine.MatchRequest selected %q although the matching rule %q outranks it (lists %q)", w.RuleText, o.RuleText, contents)
+
+					break
+				}
+			}
+		}
+	}
 	c.NonTrivial(core.Hash64(append([]string{"engine-sel"}, lines...)...))
 	c.Event("engine_selection_lists", 1)
 }
